@@ -16,10 +16,10 @@ RULE = ('each case is one session (connect + 1-4 ops over all operations) run wi
         'equal the unlimited run when the calls return and be a prefix when one raises; a stuck transport must lead to a raise within the C11 bound. '
         'non-trivial = >= 1 write was accepted partially; distinct = event-log digests')
 ASSUMPTIONS = ['a transport reports the number of bytes it accepted (BaseTransport.bulk_write contract); accepting nothing is reported as the transport timeout error or as 0']
-EXPECT_PROBES = {'all': ['short_writes', 'c15_tcp_leg', 'c15_stuck', 'c15_zero_capacity_call', 'c15_eagain', 'c15_reconnect_race']}
+EXPECT_PROBES = {'all': ['short_writes', 'c15_tcp_leg', 'c15_stuck', 'c15_zero_capacity_call', 'c15_eagain', 'c15_reconnect_race', 'c15_second_object_ran_mid_message']}
 KINDS = ['shell', 'exec_out', 'streaming_shell', 'list', 'stat', 'pull', 'push', 'push', 'root']
 TCP_LEG = True
-OWN = ('wire-format', 'truncated', 'sequence-differs', 'not-a-prefix', 'hang', 'no-termination', 'bound-exceeded', 'wrong-result', 'stuck-returned')
+OWN = ('wire-format', 'truncated', 'unexpected-exception', 'timeout-instead-of-result', 'push-content', 'push-missing', 'push-incomplete', 'sequence-differs', 'not-a-prefix', 'hang', 'no-termination', 'bound-exceeded', 'wrong-result', 'stuck-returned')
 
 
 def gen_race(seed, g):
@@ -44,6 +44,53 @@ def gen_race(seed, g):
         cfg['ayield'] = g.pick([0.2, 0.6])
     scn = {'api': api, 'transport': 'mem', 'device': d, 'config': cfg, 'pre': [{'op': 'connect', 'rt': 5.0}], 'actors': [pusher, other], 'object': {'banner': 'simhost'}}
     return {'seed': seed, 'scn': scn, 'leg': 'mem', 'race': True}
+
+
+def gen_two_objects(seed, g):
+    """Two device objects of one process, each on its own transport: while one is between two pieces of a message (short write),
+    the other runs a whole session. Each peer still sees exactly its own object's messages, whole."""
+    d = S.gen_device(g)
+    d['latency'] = {'mode': 'zero'}
+    d.pop('stray', None)
+    d['maxdata'] = g.pick([4096, 8192])
+    ops = [{'op': 'connect', 'rt': 5.0}]
+    for _ in range(g.int(1, 2)):
+        if g.chance(0.5):
+            ops.append({'op': 'push', 'src': 'bytesio', 'content': {'seed': g.int(0, 1 << 30), 'size': g.int(100, 12000), 'alpha': 'bin'}, 'path': '/data/local/tmp/t%d' % g.int(0, 99), 'mtime': 7, 'rt': 5.0, 'tt': 5.0})
+        else:
+            ops.append({'op': 'shell', 'cmd': S.add_cmd(g, d, 300), 'decode': False, 'rt': 5.0, 'tt': 5.0})
+    gd = S.gen_device(g)
+    gd['latency'] = {'mode': 'zero'}
+    gd.pop('stray', None)
+    gops = [{'op': 'connect', 'rt': 5.0}, {'op': 'shell', 'cmd': S.add_cmd(g, gd, 300), 'decode': False, 'rt': 5.0, 'tt': 5.0}]
+    if g.chance(0.5):
+        gops.append({'op': 'push', 'src': 'bytesio', 'content': {'seed': g.int(0, 1 << 30), 'size': g.int(100, 6000), 'alpha': 'bin'}, 'path': '/data/local/tmp/g', 'mtime': 7, 'rt': 5.0, 'tt': 5.0})
+    gs = {'api': 'sync', 'transport': 'mem', 'device': gd, 'config': {'frag': 'whole', 'call_cost': 1e-5, 'short': g.pick([None, 'pos'])}, 'actors': [gops], 'object': {'banner': 'ghost'}}
+    cfg = {'frag': 'whole', 'call_cost': 1e-5, 'short': 'pos', 'ghost_in_write': {'nth': g.int(0, 10), 'scn': gs, 'seed': g.int(0, 1 << 30)}}
+    scn = {'api': 'sync', 'transport': 'mem', 'device': d, 'config': cfg, 'actors': [ops], 'object': {'banner': 'simhost'}}
+    return {'seed': seed, 'scn': scn, 'leg': 'mem', 'two_objects': True}
+
+
+def evaluate_two_objects(case, tapes):
+    out = blank()
+    scn = case['scn']
+    run, tape = run_scn(case, 'scn', 0, tapes)
+    absorb(out, run, tape)
+    probs = O.monitors(run, ('c02',)) + O.check_session(run, scn)
+    if run.abort:
+        probs.append(O.P('hang' if run.abort in ('hang', 'deadlock') else 'no-termination', 'run aborted: %s %s' % (run.abort, getattr(run, 'abort_msg', ''))))
+    pr = out['probes']
+    for sub in getattr(run.link, 'ghost_runs', None) or []:
+        pr['c15_second_object_ran_mid_message'] = 1
+        gs = scn['config']['ghost_in_write']['scn']
+        probs += [O.P(t, 'second device object: ' + m) for (t, m) in O.monitors(sub, ('c02',)) + O.check_session(sub, gs)]
+        if sub.abort:
+            probs.append(O.P('no-termination', 'second device object: run aborted: %s' % sub.abort))
+    out['violations'] = [p for p in probs if p[0] in OWN]
+    out['nontrivial'] = bool(getattr(run.link, 'ghost_runs', None))
+    out['digest'] = run.digest()
+    out['sample'] = brief_scn(scn, run)
+    return out
 
 
 def evaluate_race(case, tapes):
@@ -71,6 +118,8 @@ def generate(seed, tier):
     g = Gen(seed)
     if g.chance(0.06):
         return gen_race(seed, g)
+    if g.chance(0.05):
+        return gen_two_objects(seed, g)
     big = 20000 if tier == 'quick' else 150000
     scn = S.session(g.int(0, 1 << 60), KINDS, nmax=4, big=big)
     mode = g.pick(['cap', 'cap', 'tiny', 'stuck'], [5, 0, 3, 1])
@@ -105,6 +154,8 @@ def _msgs(dev):
 def evaluate(case, tapes=None):
     if case.get('race'):
         return evaluate_race(case, tapes)
+    if case.get('two_objects'):
+        return evaluate_two_objects(case, tapes)
     out = blank()
     scn = case['scn']
     base = copy.deepcopy(scn)
